@@ -38,8 +38,17 @@ METHOD_ALIASES: Dict[str, Set[str]] = {
     "as_int64": {"cast"}, "as_str": {"cast"}, "is_inf": {"is_infinite"}, "around": {"round"}, "cumsum": {"cumsum", "cum_sum"},
     "cummax": {"cummax", "cum_max"}, "cummin": {"cummin", "cum_min"}, "cumprod": {"cumprod", "cum_prod"},
     "arccos": {"arccos"}, "arcsin": {"arcsin"}, "arctan": {"arctan"}, "size": {"sum", "count", "len"},
-    "count": {"sum", "count"}, "cumcount": {"cumsum", "cum_sum", "cum_count"},
+    "count": {"sum"}, "cumcount": {"cumsum", "cum_sum"},
 }
+# Polars primitives that are *not* the Pandas meaning of the operator although the name suggests it (API facts, polars docs)
+POLARS_CAVEATS = {
+    ("count", "count"): "Expr.count() counts every non-null value, NaN included; Pandas' count treats NaN as missing — with a NaN produced inside the "
+                        "pipeline (0/0, log of a negative) Polars returns a larger count without raising",
+    ("size", "count"): "Expr.count() skips nulls; size counts rows",
+}
+POLARS_CAVEATS[("nunique", "n_unique")] = ("Expr.n_unique() counts null as one more distinct value; Pandas' nunique and SQL's COUNT(DISTINCT) "
+                                           "skip missing values (an all-null group gives 1 instead of 0)")
+CAVEAT_LIFTED_BY = {("nunique", "n_unique"): "drop_nulls"}
 KEYWORD_CONSTRAINTS = {("bfill", "fill_null"): ("strategy", "backward"), ("ffill", "fill_null"): ("strategy", "forward")}
 BINOPS = {"-": ast.Sub, "+": ast.Add, "*": ast.Mult, "/": ast.Div, "//": ast.FloorDiv, "%": ast.Mod, "**": ast.Pow, "%/%": ast.Div,
           "mod": ast.Mod, "remainder": ast.Mod}
@@ -286,11 +295,29 @@ def _s3(program, res):
                 else:
                     res.ok("C03-S3", f"{tname}[{op!r}]: when/then/otherwise template equals the documented truth table on all 12 rows")
                 continue
-            # single method call on the first parameter
+            # single method call on the first parameter (a trailing .cast(…) only changes the dtype; a leading .drop_nulls() removes missing values first)
+            while isinstance(body, ast.Call) and isinstance(body.func, ast.Attribute) and body.func.attr == "cast" and isinstance(body.func.value, ast.Call):
+                body = body.func.value
+            prefixes = set()
+            if isinstance(body, ast.Call) and isinstance(body.func, ast.Attribute) and isinstance(body.func.value, ast.Call) \
+                    and isinstance(body.func.value.func, ast.Attribute) and body.func.value.func.attr in ("drop_nulls", "drop_nans") \
+                    and isinstance(body.func.value.func.value, ast.Name) and params and body.func.value.func.value.id == params[0]:
+                prefixes.add(body.func.value.func.attr)
+                import copy as _copy
+                body = _copy.copy(body)
+                body.func = _copy.copy(body.func)
+                body.func.value = body.func.value.func.value
             if isinstance(body, ast.Call) and isinstance(body.func, ast.Attribute) and isinstance(body.func.value, ast.Name) and params and body.func.value.id == params[0]:
                 meth = body.func.attr
                 allowed = METHOD_ALIASES.get(op, {op})
                 n_decided += 1
+                cav = POLARS_CAVEATS.get((op, meth))
+                if cav is not None and (op, meth) in CAVEAT_LIFTED_BY and CAVEAT_LIFTED_BY[(op, meth)] in prefixes:
+                    cav = None
+                if cav is not None:
+                    res.fail("C03-S3", f"polars_model:{tname}", f"entry:{op}:{meth}",
+                             f"{tname}[{op!r}] calls `{params[0]}.{meth}(…)`: {cav}", "data_algebra/polars_model.py", node.lineno)
+                    continue
                 if meth not in allowed:
                     res.fail("C03-S3", f"polars_model:{tname}", f"entry:{op}",
                              f"{tname}[{op!r}] calls `{params[0]}.{meth}(…)`; the operator `{op}` means {sorted(allowed)} — Polars silently computes something else than Pandas",
